@@ -125,7 +125,7 @@ PROPS["C19"] = dict(level="exploration",
     assumptions=["reference wire format: protowire.AppendTag(2047, Fixed32Type) + little-endian crc32.Castagnoli of the exact bytes the inner codec returned for this call",
                  "equality of the decoded message is modulo the prepended unknown field 2047"],
     stages=[dict(name="codec", engine="codec", test="TestVerifCodec", batches=dict(quick=4, thorough=16),
-                 essential={"C19": ["C19.marshal", "C19.decode:codec", "C19.decode:proto", "C19.error-pass-through", "C19.earlier-output-intact", "C19.decode-into-used-target"]}, timeout=dict(quick=900, thorough=7200))])
+                 essential={"C19": ["C19.marshal", "C19.decode:codec", "C19.decode:proto", "C19.error-pass-through", "C19.earlier-output-intact", "C19.decode-into-used-target", "C19.remarshal-modified"]}, timeout=dict(quick=900, thorough=7200))])
 
 PROPS["C17"] = dict(level="exploration",
     rule="seeded pb.ApiConfig values (zero values, nil sub-messages, up to 5 method entries with overlapping names, nil entries) and JSON texts (5 protojson renderings + mutations: unknown field, wrong type, truncation, wrong case, duplicates); non-trivial = a config driven through the whole pool observation (initial size, watermark, maxSize, per-method probes) or a parser differential or a GCPMultiEndpoint aliasing check completed; distinct = hash of the config text and variant",
